@@ -1072,6 +1072,30 @@ func Run(r *common.Run) error {
 				}
 				continue
 			}
+			if len(f) == 10 && f[0] == "C05" && f[1] == "behind" {
+				cfg := mkCfg(f[6], f[7])
+				k, _ := strconv.Atoi(f[3])
+				ts, err1 := decToks(f[4])
+				us, err2 := decToks(f[9])
+				cl := call{entry: f[5], form: "reader", toks: us}
+				if f[5] == "enc" || f[5] == "encel" {
+					cl.form = "marshaler"
+				}
+				if f[8] != "-" {
+					st, err := decToks(f[8])
+					if err != nil || len(st) != 1 {
+						continue
+					}
+					if s, ok := st[0].(xml.StartElement); ok {
+						cl.start = &s
+					}
+				}
+				if err1 == nil && err2 == nil {
+					c.behind(cfg, f[2], k, ts, cl)
+					executed++
+				}
+				continue
+			}
 			if len(f) == 6 && f[0] == "C05" && f[1] == "reuse" {
 				c.reuse(mkCfg(f[2], f[3]), f[4], strings.Split(f[5], ","))
 				executed++
@@ -1139,6 +1163,7 @@ func Run(r *common.Run) error {
 			}
 			if i%10 == 0 {
 				c.autoReply(cfgs[i%len(cfgs)])
+				c.behindCorpus(cfgs[i%len(cfgs)])
 			}
 		}
 		return nil
@@ -1155,6 +1180,10 @@ func Run(r *common.Run) error {
 		c.spellingCorpus(cfg)
 		c.rawTopCorpus(cfg)
 		c.autoReply(cfg)
+	}
+	r.Mark("case calls queued behind a sender that stops inside its element")
+	for _, cfg := range cfgs {
+		c.behindCorpus(cfg)
 	}
 	r.Mark("case token writer handles used after Close")
 	c.reuseAll()
@@ -1180,6 +1209,18 @@ func Run(r *common.Run) error {
 		toks := noForeign(cfg, call{entry: "send", toks: genElement(rnd, 0, true, 0)}).toks
 		next := noForeign(cfg, call{entry: "send", toks: genElement(rnd, 0, true, 0)}).toks
 		c.fault(cfg, pickS(rnd, []string{"reader", "tw", "badtok", "badend"}), toks, 1+rnd.Intn(len(toks)-1), next)
+	}
+	nBehind := r.Pick(40, 600)
+	for i := 0; i < nBehind; i++ {
+		cfg := cfgs[rnd.Intn(len(cfgs))]
+		toks := noForeign(cfg, call{entry: "send", toks: genElement(rnd, 0, true, 0)}).toks
+		next := noForeign(cfg, call{entry: "send", toks: genElement(rnd, 0, true, 0)}).toks
+		cl, ok := behindCall(pickS(rnd, []string{"send", "sendel", "enc", "encel", "tw"}), next)
+		if !ok || len(toks) < 3 {
+			continue
+		}
+		cl = noForeign(cfg, cl)
+		c.behind(cfg, pickS(rnd, []string{"fail", "finish"}), 1+rnd.Intn(len(toks)-1), toks, cl)
 	}
 	nConc := r.Pick(30, 300)
 	for i := 0; i < nConc; i++ {
